@@ -65,7 +65,7 @@ class C08(Check):
                    'ended the scope on that connection',
                    'ground truth of the cache = parameter callbacks (Module.addCallback), invoked by frappy inside '
                    'the module update lock; a message is matched to a cache state by its (value, timestamp)']
-    PROBES = ('c08.client-stalled', 'fault.parameter-callback-raised', 'net.send-timeout', 'c08.activate-during-updates', 'c08.deactivate', 'c08.idn', 'c08.close', 'c08.param-scope',
+    PROBES = ('c08.client-stalled', 'c08.device-timestamp', 'fault.parameter-callback-raised', 'net.send-timeout', 'c08.activate-during-updates', 'c08.deactivate', 'c08.idn', 'c08.close', 'c08.param-scope',
               'c08.module-scope')
 
     def gen_case(self, rng, tier):
@@ -127,7 +127,7 @@ class C08(Check):
             for _ in range(rng.randrange(3, 25)):
                 m = rng.choice(list(names))
                 pn = rng.choice([p for p in names[m] if p != 'value'] or names[m])
-                seq.append({'m': m, 'p': pn, 'how': rng.choice(['assign', 'assign', 'read', 'same']),
+                seq.append({'m': m, 'p': pn, 'how': rng.choice(['assign', 'assign', 'read', 'same', 'device_ts']),
                             'dt': rng.choice([0, 0, 0, 0.001, 0.02, 0.2])})
             updaters.append(seq)
         shape = {'p_switch': rng.choice([0.1, 0.3, 0.6]), 'line_gaps': rng.choice([0, 0, 8, 12, 15]),
@@ -274,6 +274,11 @@ class C08(Check):
                         getattr(mobj, 'read_' + st['p'])()
                     elif st['how'] == 'same':
                         setattr(mobj, st['p'], getattr(mobj, st['p']))
+                    elif st['how'] == 'device_ts':
+                        # a value stamped by the device, whose clock has a resolution of 1 s and lags behind
+                        counter[0] += 1
+                        sim.count('c08.device-timestamp')
+                        mobj.announceUpdate(st['p'], counter[0], timestamp=float(int(time.time())))
                     else:
                         counter[0] += 1
                         setattr(mobj, st['p'], counter[0])
